@@ -528,12 +528,16 @@ func genPlanOpt(seed uint64, prop string, cold bool) *Plan {
 	hot := r.chance(map[bool]float64{true: 0.15, false: 0.05}[prop == "C14"]) || (cold && r.chance(0.3))
 	sweep := !hot && !cold && r.chance(0.06)
 	repeat := !hot && !sweep && !cold && r.chance(0.05)
+	crowd := !cold && !hot && !sweep && !repeat && r.chance(0.006)
 	firstUse := cold && r.chance(0.5)
 	if firstUse {
 		hot = false
 	}
 	neigh := !hot && !sweep && !repeat && !cold && r.chance(map[bool]float64{true: 0.03, false: 0.08}[prop == "C14"])
-	if firstUse {
+	if crowd {
+		neigh = false
+		nTasks, nParse = genCrowd(r, p)
+	} else if firstUse {
 		nTasks, nParse = genFirstUse(r, p)
 	} else if neigh {
 		nTasks, nParse = genNeighbours(r, p)
@@ -783,7 +787,16 @@ func genPlanOpt(seed uint64, prop string, cold bool) *Plan {
 	if nTasks == 1 {
 		p.Policy = "seq"
 	}
+	if crowd {
+		p.Policy = "crowd"
+	}
 	switch p.Policy {
+	case "crowd":
+		// every task is preempted once, early inside its first call, so that
+		// dozens of calls are in flight at the same time
+		for t := 0; t < nTasks; t++ {
+			p.Preempt = append(p.Preempt, []int64{int64(1 + r.intn(250))})
+		}
 	case "seq":
 		// task order only: decided at task exits
 		for i := 0; i < nTasks; i++ {
@@ -862,6 +875,12 @@ func genPlanOpt(seed uint64, prop string, cold bool) *Plan {
 	}
 	for i := 0; i < 64; i++ {
 		p.PreSched = append(p.PreSched, uint32(r.intn(8)))
+	}
+	if crowd {
+		p.PreSched = nil
+		for t := 0; t < nTasks; t++ {
+			p.PreSched = append(p.PreSched, 0xFFFFFFFE) // rt.SchedNext: hand over to the next task
+		}
 	}
 
 	// environment: clock speed and jumps, CPU count
@@ -1140,6 +1159,46 @@ func genHot(r *rng, p *Plan) (nTasks, nParse int) {
 			ops = append(ops, ins...)
 			p.Tasks[t] = append(ops, p.Tasks[t][at:]...)
 		}
+	}
+	return nTasks, nParse
+}
+
+// genCrowd: 66-140 tasks with one or two operations each (fixed-size tables of
+// buffers or slots - 64 is a popular size - have a fallback path that only a
+// crowd of simultaneous callers reaches).
+func genCrowd(r *rng, p *Plan) (nTasks, nParse int) {
+	ver := pickVer(r, 0.4)
+	nTasks = 66 + r.intn(75)
+	kind := r.pick([]string{kParse, kParse, kVector, kScore, kRTrip})
+	var vals []string
+	for i := 0; i < 4; i++ {
+		vals = append(vals, genValid(r, ver))
+	}
+	bad := mutate(r, vals[0], ver)
+	for t := 0; t < nTasks; t++ {
+		p.Cells = append(p.Cells, CellSpec{Ver: ver, Mode: mPriv, Owner: t, Init: vals[r.intn(len(vals))]})
+	}
+	for t := 0; t < nTasks; t++ {
+		var ops []Op
+		for n := 1 + r.intn(2); n > 0; n-- {
+			op := Op{K: kind, C: t, D: -1}
+			switch kind {
+			case kParse:
+				nParse++
+				op.C, op.V = -1, ver
+				op.S = vals[r.intn(len(vals))]
+				if r.chance(0.15) {
+					op.S = bad
+				}
+				if r.chance(0.5) {
+					op.D = t
+				}
+			case kScore:
+				op.S = r.pick(apis[ver].ScoreNames())
+			}
+			ops = append(ops, op)
+		}
+		p.Tasks = append(p.Tasks, ops)
 	}
 	return nTasks, nParse
 }
